@@ -57,5 +57,15 @@ fn c07_load_activates_the_callers_tags() {
             assert!(blocked(&consumer, "http://example.com/advert.html"), "optimize={optimize} producer={producer_tags:?}: the caller's tag must be active after the load");
             assert!(!blocked(&consumer, "https://brianbondy.com/about"), "optimize={optimize} producer={producer_tags:?}: a tag only the producer had must be inactive");
         }
+        // a list whose only tagged rules are an exception and an $important rule (no plain tagged blocking rule)
+        let producer = Engine::from_rules_parametrised(["||ads.example.net^", "@@||ads.example.net/partner^$tag=p", "||imp.example^$important,tag=p"], ParseOptions::default(), true, optimize);
+        let data = producer.serialize_raw().unwrap();
+        let mut consumer = Engine::new(optimize);
+        consumer.enable_tags(&["p"]);
+        consumer.deserialize(&data).unwrap();
+        assert!(consumer.tag_exists("p"), "optimize={optimize}: the caller's enabled set must survive the load");
+        assert!(!blocked(&consumer, "https://ads.example.net/partner/banner.js"), "optimize={optimize}: tagged exception must apply after the load");
+        assert!(blocked(&consumer, "https://ads.example.net/other.js"));
+        assert!(blocked(&consumer, "https://imp.example/x"), "optimize={optimize}: tagged $important rule must apply after the load");
     }
 }
